@@ -2,8 +2,9 @@
 import ast
 
 from ..cfg import CFG
+from ..facts import facts as nfacts, none_fact
 from ..report import AnalysisError, borrow, norm
-from ..srcmodel import own_nodes, own_statements
+from ..srcmodel import own_nodes, own_statements, program_order
 from ..terms import Resolver, alternatives, show, walk
 
 PROP = "C05"
@@ -235,7 +236,29 @@ def r2_getinfo(rep, ctx):
         t = res.term(node.value)
         key = "GetInfo:%s@%d" % (norm(ast.unparse(node)), sum(1 for x in cfg.returns() if x < r))
         problems = []
-        for a in alternatives(t):
+        # the returned value, origin by origin: a value copied from a definition made under a test carries the
+        # facts of that definition site (`if ok: r = info / else: r = None ... if r is not None: return r`)
+        ret_facts = _eq_facts(cfg, res, r)
+        not_none = any(nf is not None and not nf[1] and res.term(nf[0]) == t for nf in (none_fact(f) for f in nfacts(cfg, r)))
+        per_origin = []
+        if isinstance(node.value, ast.Name):
+            org = res.origins(node.value)
+            chains = list(res.origin_chains)
+            for (st, ot), chain in zip(org, chains):
+                fs = list(ret_facts)
+                for site in [st] + chain:
+                    if site is not None:
+                        try:
+                            fs += _eq_facts(cfg, res, cfg.node_of(site))
+                        except (KeyError, AnalysisError):
+                            pass
+                for a in alternatives(ot):
+                    per_origin.append((a, fs))
+        else:
+            per_origin = [(a, ret_facts) for a in alternatives(t)]
+        for a, eqf in per_origin:
+            if a == ("const", None) and not_none:
+                continue  # excluded by the dominating `is not None` test of the returned value
             h = _getinfo_helper(m, fn, a)
             if h is not None:
                 g, binding = h
@@ -257,7 +280,7 @@ def r2_getinfo(rep, ctx):
             elif a[0] == "elem" and all(x[0] == "sub" and _is_field(x[1], "quantity_types") and _is_qt(x[2]) for x in alternatives(a[1])):
                 # loop variable over the requested quantity type's list: needs a unit fact
                 uf = None
-                for l, r_ in _eq_facts(cfg, res, r):
+                for l, r_ in eqf:
                     for x, y in ((l, r_), (r_, l)):
                         if x == ("attr", a, "unit"):
                             uf = y
@@ -267,13 +290,15 @@ def r2_getinfo(rep, ctx):
                     pass
                 else:
                     # a different unit than the requested one: only inside the Unknown exemption
-                    exempt = any((_is_qt(l) and _is_unknown_qt(r_)) or (_is_qt(r_) and _is_unknown_qt(l)) for l, r_ in _eq_facts(cfg, res, r))
+                    exempt = any((_is_qt(l) and _is_unknown_qt(r_)) or (_is_qt(r_) and _is_unknown_qt(l)) for l, r_ in eqf)
                     if not exempt:
                         problems.append("returns the info of %s instead of the requested unit outside the 'Unknown' quantity-type exemption" % show(uf))
             elif a[0] == "sub" and _is_field(a[1], "unit_to_unit_info"):
-                qt_fact = any((y[0] == "attr" and y[2] == "quantity_type" and y[1] == a and _is_qt(x)) for l, r_ in _eq_facts(cfg, res, r) for x, y in ((l, r_), (r_, l)))
+                qt_fact = any((y[0] == "attr" and y[2] == "quantity_type" and a in alternatives(y[1]) and _is_qt(x)) for l, r_ in eqf for x, y in ((l, r_), (r_, l)))
                 if not qt_fact:
                     problems.append("returns unit_to_unit_info[%s] without testing that its quantity type is the requested one: a unit of another quantity type converts instead of raising" % show(a[2]))
+                if not all(x == ("param", unit_i, "unit") or _is_legacy_fixed(x, unit_i) for x in alternatives(a[2])):
+                    problems.append("the direct lookup is made for %s, not for the requested unit or its legacy rewrite" % show(a[2]))
             else:
                 problems.append("returns %s, whose origin is not recognised" % show(a, 80))
         rep.check(not problems, "C05.R2", key, "returned info is selected under a unit fact and a quantity-type fact", "GetInfo " + "; ".join(problems), node=node, fn=fn)
@@ -282,7 +307,15 @@ def r2_getinfo(rep, ctx):
     # comes second)
     PQT = ("param", fn.params.index("quantity_type"), "quantity_type")
     first_ok = None
-    for c in sorted((c for c in own_nodes(fn.node) if isinstance(c, ast.Call)), key=lambda c: (c.lineno, c.col_offset)):
+    for c in sorted((c for c in own_nodes(fn.node) if isinstance(c, (ast.Call, ast.Compare))), key=program_order(fn.node)):
+        if isinstance(c, ast.Compare):
+            # a direct lookup made in place: `<requested type> == <unit_to_unit_info[...]>.quantity_type`
+            if first_ok is None and len(c.ops) == 1 and isinstance(c.ops[0], (ast.Eq, ast.NotEq)):
+                l, r_ = res.term(c.left), res.term(c.comparators[0])
+                for x, y in ((l, r_), (r_, l)):
+                    if y[0] == "attr" and y[2] == "quantity_type" and any(z[0] == "sub" and _is_field(z[1], "unit_to_unit_info") for z in alternatives(y[1])):
+                        first_ok = (x == PQT, c)
+            continue
         h = _getinfo_helper(m, fn, res.term(c))
         if h is None:
             continue
